@@ -230,8 +230,8 @@ HiMemtable(st) ==
 (***************************************************************************)
 PosOf(lv, t) == LET f == FlatIds(lv) IN CHOOSE i \in 1..Len(f) : f[i] = t
 RunOfPos(lv, t) ==   \* <<level index, run index>> of table t
-    CHOOSE p \in {<<i, j>> : i \in 1..NLevels, j \in 1..8} :
-        p[2] <= Len(lv[p[1]]) /\ t \in Range(lv[p[1]][p[2]])
+    CHOOSE p \in UNION {{<<i, j>> : j \in 1..Len(lv[i])} : i \in 1..NLevels} :
+        t \in Range(lv[p[1]][p[2]])
 
 \* strictly before in read order (different run, earlier)
 ReadsBefore(lv, x, y) ==
